@@ -108,8 +108,11 @@ func genProofDoc(rng *rand.Rand) (map[string]any, []docLeaf) {
 		return out
 	}
 	pair := func(p string) any { return list(2, p, u64) }
-	capN := []int{1, 2, 4, 16}[rng.Intn(4)]
-	rounds, steps := rng.Intn(5), rng.Intn(4)
+	// every list of the document has its own length: a reader may not take the length of one list from another (the number of steps of
+	// a round from the number of commit-phase caps, a cap's size from another cap's); the consistency of the shape is C20's subject
+	capSizes := []int{1, 2, 4, 16}
+	capN := func() int { return capSizes[rng.Intn(4)] }
+	rounds := rng.Intn(5)
 	openings := map[string]any{}
 	for _, k := range []string{"constants", "plonk_sigmas", "wires", "plonk_zs", "plonk_zs_next", "partial_products", "quotient_polys"} {
 		openings[k] = list(rng.Intn(9), "proof.openings."+k, pair)
@@ -119,7 +122,7 @@ func genProofDoc(rng *rand.Rand) (map[string]any, []docLeaf) {
 		evs := list(trees, p+".initial_trees_proof.evals_proofs", func(q string) any {
 			return []any{list(rng.Intn(12), q+"[0]", u64), map[string]any{"siblings": list(rng.Intn(8), q+"[1].siblings", hash)}}
 		})
-		sts := list(steps, p+".steps", func(q string) any {
+		sts := list(rng.Intn(5), p+".steps", func(q string) any {
 			return map[string]any{"evals": list([]int{2, 4, 16}[rng.Intn(3)], q+".evals", pair),
 				"merkle_proof": map[string]any{"siblings": list(rng.Intn(8), q+".merkle_proof.siblings", hash)}}
 		})
@@ -127,12 +130,12 @@ func genProofDoc(rng *rand.Rand) (map[string]any, []docLeaf) {
 	})
 	doc := map[string]any{
 		"proof": map[string]any{
-			"wires_cap":                     list(capN, "proof.wires_cap", hash),
-			"plonk_zs_partial_products_cap": list(capN, "proof.plonk_zs_partial_products_cap", hash),
-			"quotient_polys_cap":            list(capN, "proof.quotient_polys_cap", hash),
+			"wires_cap":                     list(capN(), "proof.wires_cap", hash),
+			"plonk_zs_partial_products_cap": list(capN(), "proof.plonk_zs_partial_products_cap", hash),
+			"quotient_polys_cap":            list(capN(), "proof.quotient_polys_cap", hash),
 			"openings":                      openings,
 			"opening_proof": map[string]any{
-				"commit_phase_merkle_caps": list(steps, "proof.opening_proof.commit_phase_merkle_caps", func(p string) any { return list(capN, p, hash) }),
+				"commit_phase_merkle_caps": list(rng.Intn(5), "proof.opening_proof.commit_phase_merkle_caps", func(p string) any { return list(capN(), p, hash) }),
 				"query_round_proofs":       qrs,
 				"final_poly":               map[string]any{"coeffs": list(rng.Intn(9), "proof.opening_proof.final_poly.coeffs", pair)},
 				"pow_witness":              u64("proof.opening_proof.pow_witness"),
